@@ -40,7 +40,10 @@ c2 == win[2]
 c3 == win[3]
 
 (* ------------------------------- pool ---------------------------------- *)
+StrLeaves == IF "strs" \in PoolSel THEN { E(Str(x), FromStr(x)) : x \in Strs } ELSE {}
+PregexStrLeaves == IF "pregexstrs" \in PoolSel THEN { E(<<"Pregex", x>>, FromStr(x)) : x \in Strs } ELSE {}
 LitLeaves ==
+  IF "minpool" \in PoolSel THEN { E(Str(<<c1>>), Lit(<<c1>>)) } ELSE
   { E(Str(<<c1>>), Lit(<<c1>>)), E(Str(<<c2>>), Lit(<<c2>>)),
     E(Str(<<c1, c2>>), Lit(<<c1, c2>>)), E(Str(<<c2, c1>>), Lit(<<c2, c1>>)) }
   \cup (IF "lit3" \in PoolSel THEN { E(Str(<<c1, c2, c3>>), Lit(<<c1, c2, c3>>)),
@@ -49,8 +52,19 @@ LitLeaves ==
 PregexLeaves ==   \* Pregex(s) objects instead of bare str arguments
   IF "pregex" \in PoolSel THEN { E(<<"Pregex", <<c1>>>>, Lit(<<c1>>)), E(<<"Pregex", <<c1, c2>>>>, Lit(<<c1, c2>>)) } ELSE {}
 EmptyLeaves ==
-  IF "empty" \in PoolSel THEN { E(<<"Pregex", <<>>>>, Eps), E(Str(<<>>), Eps) } ELSE {}
+  (IF "empty" \in PoolSel THEN { E(<<"Pregex", <<>>>>, Eps), E(Str(<<>>), Eps) } ELSE {})
+  \cup (IF "emptyforms" \in PoolSel
+        THEN { E(<<"Exactly", Str(<<c1>>), <<"i", 0>>>>, Eps), E(<<"Mul", Str(<<c1, c2>>), <<"i", 0>>>>, Eps),
+               E(<<"AtMost", Str(<<c2>>), <<"i", 0>>, TRUE>>, Eps),
+               E(<<"AtLeastAtMost", <<"AnyFrom", <<c1, c3>>>>, <<"i", 0>>, <<"i", 0>>, FALSE>>, Eps),
+               E(<<"Concat", <<"args">>>>, Eps), E(<<"Either", <<"args">>>>, Eps),
+               E(<<"Optional", <<"Pregex", <<>>>>, TRUE>>, Eps), E(<<"OneOrMore", Str(<<>>), TRUE>>, Eps),
+               E(<<"Group", <<"Pregex", <<>>>>, FALSE>>, Eps), E(<<"Capture", Str(<<>>), <<"name", "n">>>>, Eps),
+               E(<<"Concat", <<"args", Str(<<>>), <<"Pregex", <<>>>>>>>>, Eps),
+               E(<<"Look", "ahead", TRUE, Str(<<>>), <<"args", <<"Pregex", <<>>>>>>>>, Eps) }
+        ELSE {})
 ClassLeaves ==
+  IF "minpool" \in PoolSel THEN { E(<<"AnyDigit">>, Cls(FALSE, << <<48, 57>> >>)) } ELSE
   IF "class" \in PoolSel
   THEN { E(<<"AnyFrom", <<c1, c3>>>>, Cls(FALSE, IvOfSet({c1, c3}))),
          E(<<"AnyButFrom", <<c1>>>>, Cls(TRUE, IvOfSet({c1}))),
@@ -66,7 +80,27 @@ BadLeaves ==
   IF "bad" \in PoolSel THEN { E(<<"badarg", "int">>, Bad("int")), E(<<"badarg", "none">>, Bad("none")),
                               E(<<"badarg", "list">>, Bad("list")) } ELSE {}
 
-Leaves == LitLeaves \cup PregexLeaves \cup EmptyLeaves \cup ClassLeaves \cup TokenLeaves \cup BoundaryLeaves
+ParenLeaves ==   \* literals that look like group syntax
+  IF "parens" \in PoolSel
+  THEN { E(Str(<<40>>), Lit(<<40>>)), E(Str(<<41>>), Lit(<<41>>)), E(Str(<<40, 63, 58, c1, 41>>), Lit(<<40, 63, 58, c1, 41>>)),
+         E(Str(<<40, 63, 80, 60, 120, 62, c1, 41>>), Lit(<<40, 63, 80, 60, 120, 62, c1, 41>>)),
+         E(Str(<<40, c1, 41, 40, c1, 41>>), Lit(<<40, c1, 41, 40, c1, 41>>)) }
+  ELSE {}
+LookLeaves ==    \* lookarounds on the empty pattern and on a literal, conditionals, back-references
+  IF "looks" \in PoolSel
+  THEN { E(<<"Look", lk[1], lk[2], Str(<<>>), <<"args", Str(<<c1>>)>>>>, Look(lk[1], lk[2], Eps, Lit(<<c1>>))) : lk \in {"ahead", "behind", "both"} \X BOOLEAN }
+       \cup { E(<<"Look", lk[1], lk[2], Str(<<c2>>), <<"args", Str(<<c1>>)>>>>, Look(lk[1], lk[2], Lit(<<c2>>), Lit(<<c1>>))) : lk \in {"ahead", "behind"} \X BOOLEAN }
+       \cup { E(<<"Anchor", kd, Str(<<>>)>>, Anch(kd, Eps)) : kd \in {"bos", "eol"} }
+  ELSE {}
+RefLeaves ==
+  IF "refs" \in PoolSel
+  THEN { E(<<"Backreference", <<"i", 1>>>>, Bref(1, "")), E(<<"Backreference", <<"name", "n">>>>, Bref(0, "n")),
+         E(<<"Conditional", <<"name", "n">>, Str(<<c1>>), Str(<<c2>>)>>, Cond("n", Lit(<<c1>>), Lit(<<c2>>), TRUE)),
+         E(<<"Conditional", <<"name", "n">>, Str(<<c1>>)>>, Cond("n", Lit(<<c1>>), Eps, FALSE)) }
+  ELSE {}
+
+PoolLeaves == LitLeaves \cup PregexLeaves \cup EmptyLeaves \cup ClassLeaves \cup TokenLeaves \cup BoundaryLeaves
+Leaves == StrLeaves \cup PregexStrLeaves \cup ParenLeaves \cup LookLeaves \cup RefLeaves \cup PoolLeaves
 
 A1 == E(Str(<<c1>>), Lit(<<c1>>))
 A2 == E(Str(<<c2>>), Lit(<<c2>>))
@@ -93,7 +127,7 @@ Derived ==
              \cup { E(<<"Look", "behind", FALSE, x.t, <<"args", y.t>>>>, Look("behind", FALSE, x.v, y.v)) : x \in {A1}, y \in {A2} }
         ELSE {})
 
-Pool == Leaves \cup Derived \cup BadLeaves
+Pool == PoolLeaves \cup Derived \cup BadLeaves
 Focus0 == IF "focusall" \in PoolSel THEN Leaves \cup Derived ELSE Leaves
 
 (* ------------------------------- steps --------------------------------- *)
@@ -103,20 +137,21 @@ TagOf(y) == (IF IsEmpty(y.v) THEN {"emptyarg"} ELSE {}) \cup (IF y.t[1] = "str" 
 
 BinOps(x) ==
   (IF "concat" \in OpSel
-   THEN { S(<<"Concat", <<"args", x.t, y.t>>>>, EConcat(x.v, y.v), TagOf(y)) : y \in Pool }
+   THEN { S(<<"Concat", <<"args", x.t, y.t>>>>, EConcat(x.v, y.v), TagOf(y) \cup {"xfirst"}) : y \in Pool }
         \cup { S(<<"Concat", <<"args", y.t, x.t>>>>, EConcat(y.v, x.v), TagOf(y)) : y \in Pool }
    ELSE {})
   \cup (IF "either" \in OpSel
-   THEN { S(<<"Either", <<"args", x.t, y.t>>>>, EEither(x.v, y.v), TagOf(y)) : y \in {p \in Pool : ~EitherUnspecified(x.v, p.v)} }
+   THEN { S(<<"Either", <<"args", x.t, y.t>>>>, EEither(x.v, y.v), TagOf(y) \cup {"xfirst"}) : y \in {p \in Pool : ~EitherUnspecified(x.v, p.v)} }
         \cup { S(<<"Either", <<"args", y.t, x.t>>>>, EEither(y.v, x.v), TagOf(y)) : y \in {p \in Pool : ~EitherUnspecified(p.v, x.v)} }
    ELSE {})
   \cup (IF "enclose" \in OpSel
-   THEN { S(<<"Enclose", <<"args", x.t, y.t>>>>, EEnclose(x.v, y.v), TagOf(y)) : y \in Pool }
+   THEN { S(<<"Enclose", <<"args", x.t, y.t>>>>, EEnclose(x.v, y.v), TagOf(y) \cup {"xfirst"}) : y \in Pool }
         \cup { S(<<"Enclose", <<"args", y.t, x.t>>>>, EEnclose(y.v, x.v), TagOf(y)) : y \in Pool }
    ELSE {})
 
-IA(n) == IF n = Inf THEN NoneA ELSE IntA(n)
-TA(n) == IF n = Inf THEN <<"none">> ELSE <<"i", n>>
+\* bound codes in Quants: n >= 0 the integer; -1 None; -2 the integer -1; -3 a bool; -4 a float; -5 a str
+IA(n) == CASE n >= 0 -> IntA(n) [] n = -1 -> NoneA [] n = -2 -> IntA(-1) [] n = -3 -> BoolA [] n = -4 -> FloatA [] n = -5 -> StrA
+TA(n) == CASE n >= 0 -> <<"i", n>> [] n = -1 -> <<"none">> [] n = -2 -> <<"i", -1>> [] n = -3 -> <<"bool">> [] n = -4 -> <<"float">> [] n = -5 -> <<"str">>
 QuantOps(x) ==
   IF "quant" \notin OpSel THEN {}
   ELSE { (CASE q[1] = "Optional"   -> S(<<"Optional", x.t, q[4]>>, EOptional(x.v, q[4]), {})
@@ -134,6 +169,8 @@ NA(nm) == IF nm = "" THEN NoneA ELSE NameA(nm)
 GroupOps(x) ==
   IF "group" \notin OpSel THEN {}
   ELSE { S(<<"Capture", x.t, NT(nm)>>, ECapture(x.v, NA(nm)), {}) : nm \in Names \cup {""} }
+       \cup (IF "badnames" \in OpSel THEN { S(<<"Capture", x.t, <<"badname">>>>, ECapture(x.v, BadNameA), {"badarg"}),
+                                             S(<<"Capture", x.t, <<"badtype">>>>, ECapture(x.v, BadTypeA), {"badarg"}) } ELSE {})
        \cup { S(<<"Group", x.t, ci>>, EGroup(x.v, ci), {}) : ci \in {b \in BOOLEAN : ~GroupUnspecified(x.v, b)} }
 
 AnchorOps(x) ==
@@ -143,10 +180,25 @@ AnchorOps(x) ==
 LookKinds == {"ahead", "behind", "both"} \X BOOLEAN
 LookOps(x) ==
   IF "look" \notin OpSel THEN {}
-  ELSE { S(<<"Look", lk[1], lk[2], x.t, <<"args", y.t>>>>, ELookN(lk[1], lk[2], x.v, <<y.v>>), TagOf(y)) : lk \in LookKinds, y \in Pool }
+  ELSE { S(<<"Look", lk[1], lk[2], x.t, <<"args", y.t>>>>, ELookN(lk[1], lk[2], x.v, <<y.v>>), TagOf(y) \cup {"xfirst"}) : lk \in LookKinds, y \in Pool }
        \cup { S(<<"Look", lk[1], lk[2], y.t, <<"args", x.t>>>>, ELookN(lk[1], lk[2], y.v, <<x.v>>), TagOf(y)) : lk \in LookKinds, y \in Pool }
 
-Step(x) == BinOps(x) \cup QuantOps(x) \cup GroupOps(x) \cup AnchorOps(x) \cup LookOps(x)
+\* Conditional(name, pre1[, pre2]) in a context that defines the group it tests
+GT == <<"Optional", <<"Capture", Str(<<c1>>), <<"name", "g">>>>, TRUE>>
+GV == Rep(Cap(Lit(<<c1>>), "g"), 0, 1, TRUE)
+CondIn(t, o) == [t |-> <<"Concat", <<"args", GT, t>>>>,
+                 o |-> IF o.ok THEN [EConcat(GV, o.v) EXCEPT !.ex = o.ex] ELSE o]
+CondOps(x) ==
+  IF "cond" \notin OpSel THEN {}
+  ELSE { LET c == CondIn(<<"Conditional", <<"name", "g">>, x.t, y.t>>, EConditional(NameA("g"), x.v, y.v, TRUE)) IN S(c.t, c.o, TagOf(y) \ {"emptyarg"}) : y \in {p \in Pool : p.v # Bad("none")} }   \* pre2 = None means "no else branch"
+       \cup { LET c == CondIn(<<"Conditional", <<"name", "g">>, y.t, x.t>>, EConditional(NameA("g"), y.v, x.v, TRUE)) IN S(c.t, c.o, TagOf(y) \ {"emptyarg"}) : y \in Pool }
+       \cup { LET c == CondIn(<<"Conditional", <<"name", "g">>, x.t>>, EConditional(NameA("g"), x.v, Eps, FALSE)) IN S(c.t, c.o, {}) }
+       \cup (IF "badnames" \in OpSel
+             THEN { S(<<"Conditional", <<"badname">>, x.t>>, EConditional(BadNameA, x.v, Eps, FALSE), {"badarg"}),
+                    S(<<"Conditional", <<"badtype">>, x.t>>, EConditional(BadTypeA, x.v, Eps, FALSE), {"badarg"}) }
+             ELSE {})
+
+Step(x) == CondOps(x) \cup BinOps(x) \cup QuantOps(x) \cup GroupOps(x) \cup AnchorOps(x) \cup LookOps(x)
 
 (* ------------------------------ machine -------------------------------- *)
 
@@ -193,6 +245,16 @@ LookbehindRule ==
   (res.ok /\ cur.v.k = "look" /\ cur.v.dir # "ahead" /\ WKnown(cur.v.x)) => FixedWidth(cur.v.x)
 \* C05, single step: an empty later operand is neutral (action property)
 EmptyNeutralStep ==
-  [][ ("emptyarg" \in res'.tags /\ res'.ok /\ cur'.t[1] \in {"Concat", "Enclose"} /\ cur'.t[2][2] = cur.t)
-        => cur'.v = cur.v ]_vars
+  [][ ("emptyarg" \in res'.tags /\ res'.ok) =>
+        LET o == cur'.t[1]  xf == "xfirst" \in res'.tags IN
+        CASE o = "Concat"            -> cur'.v = cur.v
+          [] o = "Enclose" /\ xf     -> cur'.v = cur.v
+          [] o = "Either" /\ xf      -> cur'.v = cur.v
+          [] o = "Look" /\ xf        -> cur'.t[3] /\ cur'.v = cur.v
+          [] OTHER                   -> TRUE ]_vars
+\* a negative lookaround on an empty assertion pattern raises, whatever the match operand
+EmptyNegRaises ==
+  [][ ("emptyarg" \in res'.tags /\ "xfirst" \in res'.tags /\ cur'.t[1] = "Look" /\ ~cur'.t[3]
+        /\ "badarg" \notin res'.tags)
+        => (~res'.ok /\ res'.ex = {EmptyNegEx}) ]_vars
 =============================================================================
